@@ -286,6 +286,12 @@ def evaluate__translate(self: XPathFunction, context: ta.ContextType = None) -> 
         return arg.translate(str.maketrans(map_string, trans_string[:len(map_string)]))
 
 
+def round_half_up(value: Any) -> int:
+    """The fn:round() rule: the nearest integer, a tie goes toward positive infinity."""
+    floor = math.floor(value)
+    return floor + 1 if 2 * (value - floor) >= 1 else floor
+
+
 @method(function('substring', nargs=(2, 3),
                  sequence_types=('xs:string?', 'xs:double', 'xs:double', 'xs:string')))
 def evaluate__substring(self: XPathFunction, context: ta.ContextType = None) -> str:
@@ -303,7 +309,7 @@ def evaluate__substring(self: XPathFunction, context: ta.ContextType = None) -> 
         else:
             raise self.error('FORG0006', "the second argument must be xs:numeric") from None
     else:
-        start = int(round(start)) - 1
+        start = round_half_up(start) - 1
 
     if len(self) == 2:
         return item[max(start, 0):]
@@ -321,7 +327,7 @@ def evaluate__substring(self: XPathFunction, context: ta.ContextType = None) -> 
         if math.isinf(length):
             return item[max(start, 0):]
         else:
-            stop = start + int(round(length))
+            stop = start + round_half_up(length)
             return item[slice(max(start, 0), max(stop, 0))]
 
 
